@@ -8,7 +8,7 @@ import os
 import shutil
 import subprocess
 
-V = os.environ.get('VERIF_ROOT', '/verif')
+V = os.environ.get('VERIF_ROOT') or os.path.dirname(os.path.dirname(os.path.abspath(__file__)))
 CACHE = V + '/.cache'
 ENV = dict(os.environ, CARGO_NET_OFFLINE='true')
 # the tree under test; VERIF_REPO points the program checks at a scratch copy (mutation trials)
